@@ -134,7 +134,6 @@ class ProcessExecutor:
         futures_to_start = list(self._pending_future_to_thunk.keys())[:start_count]
         for future in futures_to_start:
             thunk = self._pending_future_to_thunk[future]
-            del self._pending_future_to_thunk[future]
             process = self.mp_context.Process(
                 target=_subprocess_target,
                 kwargs=dict(
@@ -143,7 +142,12 @@ class ProcessExecutor:
                     result_queue=self._result_queue,
                 ),
             )
+            # Register the future as running before it stops being
+            # pending: if an interrupt lands between the two steps the
+            # future must not be left in neither table, where it
+            # would never be started, cancelled or completed.
             self._running_id_to_future_and_process[future.id] = (future, process)
+            del self._pending_future_to_thunk[future]
             process.start()
 
     def submit(self, fn: Callable, /, *args, **kwargs) -> Future:
@@ -166,7 +170,9 @@ class ProcessExecutor:
         """Cancel all running futures and immediately terminate their execution."""
         future_process_pairs = list(self._running_id_to_future_and_process.values())
         for future, process in future_process_pairs:
-            process.terminate()
+            # (An interrupt may have arrived before the process was started.)
+            if process.is_alive():
+                process.terminate()
             future.cancel()
             del self._running_id_to_future_and_process[future.id]
 
